@@ -1,4 +1,4 @@
 SPECIFICATION TraceSpec
-INVARIANTS Durable Atomic OneCommit OkMeansComplete FaultMeansErrOrComplete NoDanglingTx Snapshot CrashAtomic RetryConverges
+INVARIANTS Atomic OneCommit OkMeansComplete FaultMeansErrOrComplete NoDanglingTx Snapshot CrashAtomic RetryConverges Durable
 POSTCONDITION Accepted
 CHECK_DEADLOCK FALSE
